@@ -78,6 +78,7 @@ type section struct {
 	name    string
 	fqfmt   string
 	prog    string
+	fprog   string // lighter observation for the fault enumeration ("def fobs: ...;")
 	newSpec func() any
 	enum    func(r *core.Run, emit func(spec any))
 	build   func(spec any) *genFile
@@ -92,8 +93,6 @@ type section struct {
 
 var sections []*section
 
-var dbgHook func(rn *runner, data []byte)
-
 func register(s *section) { sections = append(sections, s) }
 
 // Case is the replayable description of one evaluation.
@@ -106,6 +105,7 @@ type Case struct {
 	Xor     int             `json:"xor,omitempty"`
 	Region  string          `json:"region,omitempty"`
 	Hex     string          `json:"hex,omitempty"`
+	NP      int             `json:"payload_grid"` // size of the payload grid the member rotation used (7 quick, 9 thorough)
 }
 
 func shortHex(b []byte) string {
@@ -140,6 +140,9 @@ func newRunner(r *core.Run, sx *section) *runner {
 }
 
 func (rn *runner) program(probe bool) string {
+	if !probe && rn.sx.fprog != "" {
+		return jqCommon + rn.sx.fprog + "\n.[] | [ (try (decode(\"" + rn.sx.fqfmt + "\") | fobs) catch {jqerr: tostring}) ]"
+	}
 	p := jqCommon + rn.sx.prog + "\n.[] | [ (try (decode(\"" + rn.sx.fqfmt + "\") | obs) catch {jqerr: tostring})"
 	if probe {
 		p += ", (try (decode(\"probe\") | obs) catch {jqerr: tostring})"
@@ -385,8 +388,15 @@ func run(r *core.Run) {
 	r.Assume("multi member archives: member i of a grid point (name n, payload p) gets name (n+i) mod |names| and payload (p+i) mod |payloads|, so the product member count x name x payload x writer configuration is complete while names stay distinct inside one archive")
 	r.Assume("gzip ISIZE is a length, not a checksum: a changed ISIZE that fq reports as stored (unvalidated, gzip.go 'TODO: verify isize?') is counted in isize_reported_as_stored and is not a violation")
 	r.Extra("fault_rule", fmt.Sprintf("files of at most %d bytes; every offset of every checksummed region and stored checksum; masks 0x01 and 0x80; accepted: decode error, at least one invalid checksum, or a truthful clean tree (the independent recomputation of the stored checksum over the payload fq exposes matches, which can only happen when the byte did not reach the payload, e.g. deflate padding bits)", faultMaxSize))
+	if r.Thorough() {
+		extendPayloads()
+		r.Extra("thorough_extra", "payload grid extended by 1 MiB constant and 1 MiB LCG noise; zip64 form with the full name x payload grid")
+	}
 	selfTest(r)
 	var idx int64
+	// cheap sections first so that a short deadline still covers every format
+	order := map[string]int{"wav": 0, "gif": 1, "tar": 2, "zip": 3, "png": 4, "gzip": 5}
+	sort.SliceStable(sections, func(i, j int) bool { return order[sections[i].name] < order[sections[j].name] })
 	for _, sx := range sections {
 		if !only(sx.name) {
 			r.NotExhaustive("VERIF_ONLY excludes section " + sx.name)
@@ -460,7 +470,7 @@ func runSection(r *core.Run, sx *section, idx *int64) bool {
 
 func (rn *runner) caseOf(f *genFile, mode string) Case {
 	sp, _ := json.Marshal(f.Spec)
-	return Case{Section: rn.sx.name, Spec: sp, Desc: f.Desc, Mode: mode, Hex: shortHex(f.Data)}
+	return Case{Section: rn.sx.name, Spec: sp, Desc: f.Desc, Mode: mode, Hex: shortHex(f.Data), NP: len(payloads)}
 }
 
 func (rn *runner) intact(batch []*genFile) {
@@ -659,6 +669,9 @@ func replay(r *core.Run, raw json.RawMessage) bool {
 		fmt.Println("unknown section", c.Section)
 		return false
 	}
+	if c.NP > 7 {
+		extendPayloads()
+	}
 	spec := sx.newSpec()
 	if err := json.Unmarshal(c.Spec, spec); err != nil {
 		fmt.Println("bad spec:", err)
@@ -702,9 +715,6 @@ func replay(r *core.Run, raw json.RawMessage) bool {
 		ok, why := sx.truthful(f, m, *reg, o)
 		fmt.Println("  clean tree:", why)
 		return !ok
-	}
-	if dbgHook != nil {
-		dbgHook(rn, f.Data)
 	}
 	rn.intact([]*genFile{f})
 	res := rn.eval([][]byte{f.Data}, true)[0]
